@@ -315,6 +315,19 @@ func replay(r *ev.Run) {
 	}
 	json.Unmarshal(doc.Replay, &head)
 	switch head.Part {
+	case "a2":
+		var rp replayA2
+		if err := json.Unmarshal(doc.Replay, &rp); err != nil {
+			ev.Fatal("replay: %v", err)
+		}
+		sp := speakerByName(rp.Speaker)
+		if sp == nil {
+			ev.Fatal("replay: unknown speaker %q", rp.Speaker)
+		}
+		a := &partA{r: r, fpByRaw: map[string]witness{}, rawByFp: map[uint64]witness{}, fpByDoc: map[string]witness{},
+			count: map[string]int64{}, inexpr: map[string]int64{}, rejected: map[string]int64{}, found: map[string]int{}}
+		a.evalA2(sp, rp)
+		fmt.Printf("replay part a2: %d evaluations, violations %v\n", r.Evaluations, a.found)
 	case "a":
 		var rp replayA
 		if err := json.Unmarshal(doc.Replay, &rp); err != nil {
